@@ -63,6 +63,8 @@ def check(ctx):
         # R6: what load validates a structure against is what the builder produces (a loader that refuses the library's own output)
         import c19
         c19.check_partial_unit_counts(ctx, ctx.facts(cfg), "" if cfg == "native" else "@" + cfg, prefix="C06.R6")
+        from core import Relabel
+        c19.check_config(Relabel(ctx, {"C19.R2.validation-matches-builder": "C06.R6.validation-matches-builder"}), ctx.facts(cfg), "" if cfg == "native" else "@" + cfg)
 
 
 def flatten(ctx, name, H, B, where, tag):
